@@ -9,8 +9,8 @@ func reg(p *property) { properties[p.ID] = p }
 
 func init() {
 	reg(&property{
-		ID:      "C12",
-		NoInstr: true,
+		ID: "C12",
+
 		Obligations: []obligation{
 			{Pkg: "mysql", Entry: "H_C12_arith", Witnesses: []string{"C12.arith"}},
 			{Pkg: "mysql", Entry: "H_C12_check", Witnesses: []string{"C12.check.err", "C12.check.nil"}},
@@ -25,8 +25,8 @@ func init() {
 		Outside: []string{"negative configured counts (config validation is not part of this property)", "n > 2^62"},
 	})
 	reg(&property{
-		ID:      "C13",
-		NoInstr: true,
+		ID: "C13",
+
 		Obligations: []obligation{
 			{Pkg: "mysql/gtids", Entry: "H_C13_relations", Witnesses: []string{"C13.behind", "C13.ahead"},
 				Quick: tierCfg{Params: map[string]int{"uuids": 2, "tags": 1, "intervals": 2}}, Thorough: tierCfg{Params: map[string]int{"uuids": 2, "tags": 2, "intervals": 2}}},
@@ -50,8 +50,8 @@ func init() {
 	})
 	c14rec := map[string]int{modPath + "/internal/app.getMostDesirableNode": 7}
 	reg(&property{
-		ID:      "C14",
-		NoInstr: true,
+		ID: "C14",
+
 		Obligations: []obligation{
 			{Pkg: "app", Entry: "H_C14_choice", Witnesses: []string{"C14.empty", "C14.choice.multi"}, RecursionLimits: c14rec, Solver: "cvc5",
 				Quick: tierCfg{Params: map[string]int{"max_n": 3, "gtid_bits": 3}}, Thorough: tierCfg{Params: map[string]int{"max_n": 4, "gtid_bits": 3}}},
